@@ -29,7 +29,10 @@ fn any_bool_for_char(_c: char) -> bool {
 }
 
 fn on_boundaries(s: &str, r: &Range<usize>) -> bool {
-    r.start <= r.end && r.end <= s.len() && s.is_char_boundary(r.start) && s.is_char_boundary(r.end)
+    r.start <= r.end
+        && r.end <= s.len()
+        && s.is_char_boundary(r.start)
+        && s.is_char_boundary(r.end)
 }
 
 fn token_text<'a>(t: &Token<'a>) -> Option<&'a str> {
@@ -37,7 +40,12 @@ fn token_text<'a>(t: &Token<'a>) -> Option<&'a str> {
         Token::Ident(x) => x,
         Token::Integer(a, _) => a,
         Token::Float(a, _) => a,
-        Token::Hex(x) | Token::Asn(x) | Token::IpV4(x) | Token::IpV6(x) | Token::String(x) | Token::Char(x) => x,
+        Token::Hex(x)
+        | Token::Asn(x)
+        | Token::IpV4(x)
+        | Token::IpV6(x)
+        | Token::String(x)
+        | Token::Char(x) => x,
         _ => return None,
     })
 }
@@ -46,12 +54,24 @@ fn token_text<'a>(t: &Token<'a>) -> Option<&'a str> {
 fn check(s: &str, l: &Lexer<'_>, r: ControlFlow<(Token<'_>, Range<usize>)>) {
     match r {
         ControlFlow::Continue(()) => {
-            assert!(l.input.len() == s.len(), "OBL:C06.lexer.no_match_leaves_input_untouched");
+            assert!(
+                l.input.len() == s.len(),
+                "OBL:C06.lexer.no_match_leaves_input_untouched"
+            );
         }
         ControlFlow::Break((tok, span)) => {
-            assert!(on_boundaries(s, &span), "OBL:C06.lexer.span_in_file_on_char_boundaries");
-            assert!(l.input.len() == s.len() - span.end, "OBL:C06.lexer.rest_is_suffix_after_token");
-            assert!(span.end > span.start, "OBL:C06.lexer.token_is_not_empty");
+            assert!(
+                on_boundaries(s, &span),
+                "OBL:C06.lexer.span_in_file_on_char_boundaries"
+            );
+            assert!(
+                l.input.len() == s.len() - span.end,
+                "OBL:C06.lexer.rest_is_suffix_after_token"
+            );
+            assert!(
+                span.end > span.start,
+                "OBL:C06.lexer.token_is_not_empty"
+            );
             // the token text is the very bytes of the source the span names (pointer identity,
             // no re-slicing: slicing would itself panic off a boundary and hide the verdict)
             let base = s.as_ptr() as usize + span.start;
@@ -59,19 +79,37 @@ fn check(s: &str, l: &Lexer<'_>, r: ControlFlow<(Token<'_>, Range<usize>)>) {
             let ok = match &tok {
                 // number tokens split their text into digits and suffix
                 Token::Integer(a, b) | Token::Float(a, b) => {
-                    a.as_ptr() as usize == base && a.len() + b.len() == len && (b.is_empty() || b.as_ptr() as usize == base + a.len())
+                    a.as_ptr() as usize == base
+                        && a.len() + b.len() == len
+                        && (b.is_empty()
+                            || b.as_ptr() as usize == base + a.len())
                 }
                 _ => match token_text(&tok) {
-                    Some(text) => text.as_ptr() as usize == base && text.len() == len,
+                    Some(text) => {
+                        text.as_ptr() as usize == base && text.len() == len
+                    }
                     None => true,
                 },
             };
-            assert!(ok, "OBL:C09.lexer.token_text_is_exactly_the_source_bytes");
+            assert!(
+                ok,
+                "OBL:C09.lexer.token_text_is_exactly_the_source_bytes"
+            );
             // what Parser::simple_literal relies on when it strips the quotes with `&s[1..s.len() - 1]`
-            let quoted = |x: &str, q: u8| x.len() >= 2 && x.as_bytes()[0] == q && x.as_bytes()[x.len() - 1] == q;
+            let quoted = |x: &str, q: u8| {
+                x.len() >= 2
+                    && x.as_bytes()[0] == q
+                    && x.as_bytes()[x.len() - 1] == q
+            };
             match &tok {
-                Token::String(x) => assert!(quoted(x, b'"'), "OBL:C06.lexer.string_token_includes_both_quotes"),
-                Token::Char(x) => assert!(quoted(x, b'\''), "OBL:C06.lexer.char_token_includes_both_quotes"),
+                Token::String(x) => assert!(
+                    quoted(x, b'"'),
+                    "OBL:C06.lexer.string_token_includes_both_quotes"
+                ),
+                Token::Char(x) => assert!(
+                    quoted(x, b'\''),
+                    "OBL:C06.lexer.char_token_includes_both_quotes"
+                ),
                 _ => {}
             }
         }
@@ -102,8 +140,14 @@ macro_rules! recogniser {
             let r = l.$method();
             let matched = matches!(r, ControlFlow::Break(_));
             check(s, &l, r);
-            kani::cover!(matched || !$can_match, "COV:C06.lexer.recogniser_matched");
-            kani::cover!(!s.is_ascii() && s.len() == $n, "COV:C06.lexer.multibyte_input_reached");
+            kani::cover!(
+                matched || !$can_match,
+                "COV:C06.lexer.recogniser_matched"
+            );
+            kani::cover!(
+                !s.is_ascii() && s.len() == $n,
+                "COV:C06.lexer.multibyte_input_reached"
+            );
         }
     };
 }
@@ -131,7 +175,10 @@ fn c06_u1_skip_whitespace_n3() {
     let mut l = Lexer::new(s);
     l.skip_whitespace();
     let consumed = s.len() - l.input.len();
-    assert!(consumed <= s.len() && s.is_char_boundary(consumed), "OBL:C06.lexer.skip_whitespace_removes_a_prefix_on_a_boundary");
+    assert!(
+        consumed <= s.len() && s.is_char_boundary(consumed),
+        "OBL:C06.lexer.skip_whitespace_removes_a_prefix_on_a_boundary"
+    );
     kani::cover!(consumed > 0, "COV:C06.lexer.whitespace_skipped");
 }
 
@@ -181,16 +228,27 @@ fn c06_u2_bump_n3() {
     kani::assume(n <= s.len() && s.is_char_boundary(n));
     let mut l = Lexer::new(s);
     let (a, r) = l.bump(n);
-    assert!(r.start == 0 && r.end == n && a.len() == n && l.input.len() == s.len() - n, "OBL:C06.lexer.bump_returns_prefix_and_range");
+    assert!(
+        r.start == 0
+            && r.end == n
+            && a.len() == n
+            && l.input.len() == s.len() - n,
+        "OBL:C06.lexer.bump_returns_prefix_and_range"
+    );
     let m: usize = kani::any();
     kani::assume(m <= l.input.len() && l.input.is_char_boundary(m));
     let (_b, r2) = l.bump(m);
-    assert!(r2.start == n && r2.end == n + m, "OBL:C06.lexer.bump_ranges_are_relative_to_the_file");
+    assert!(
+        r2.start == n && r2.end == n + m,
+        "OBL:C06.lexer.bump_ranges_are_relative_to_the_file"
+    );
     kani::cover!(n > 0 && m > 0, "COV:C06.lexer.two_bumps_reached");
 }
 
 /// model of "no recogniser matched": input untouched
-fn no_recogniser_matched<'s>(_l: &mut Lexer<'s>) -> ControlFlow<(Token<'s>, Range<usize>)>
+fn no_recogniser_matched<'s>(
+    _l: &mut Lexer<'s>,
+) -> ControlFlow<(Token<'s>, Range<usize>)>
 where
     's: 's,
 {
@@ -210,14 +268,29 @@ fn c06_u3_next_inner_error_span_n4() {
     let mut l = Lexer::new(s);
     l.bump(k);
     match l.next_inner() {
-        None => assert!(k == s.len(), "OBL:C06.lexer.next_inner_none_only_at_end_of_input"),
+        None => assert!(
+            k == s.len(),
+            "OBL:C06.lexer.next_inner_none_only_at_end_of_input"
+        ),
         Some((res, span)) => {
-            assert!(res.is_err(), "OBL:C06.lexer.next_inner_reports_an_error_token");
-            assert!(span.start == k && span.end > span.start, "OBL:C06.lexer.error_span_starts_here_and_is_not_empty");
-            assert!(on_boundaries(s, &span), "OBL:C06.lexer.error_span_in_file_on_char_boundaries");
+            assert!(
+                res.is_err(),
+                "OBL:C06.lexer.next_inner_reports_an_error_token"
+            );
+            assert!(
+                span.start == k && span.end > span.start,
+                "OBL:C06.lexer.error_span_starts_here_and_is_not_empty"
+            );
+            assert!(
+                on_boundaries(s, &span),
+                "OBL:C06.lexer.error_span_in_file_on_char_boundaries"
+            );
         }
     }
-    kani::cover!(!s.is_ascii() && k < s.len(), "COV:C06.lexer.error_at_multibyte_char_reached");
+    kani::cover!(
+        !s.is_ascii() && k < s.len(),
+        "COV:C06.lexer.error_at_multibyte_char_reached"
+    );
 }
 
 #[kani::proof]
@@ -227,5 +300,8 @@ fn canary_c06_u1_one_char_punctuation() {
     let s = any_str::<2>(&mut buf);
     let mut l = Lexer::new(s);
     let r = l.one_char_punctuation();
-    assert!(!matches!(r, ControlFlow::Break(_)), "CANARY:C06.lexer.recogniser_matched");
+    assert!(
+        !matches!(r, ControlFlow::Break(_)),
+        "CANARY:C06.lexer.recogniser_matched"
+    );
 }
